@@ -26,7 +26,16 @@ class Ctx:
         self.quick = tier == "quick"
         self.rng = random.Random(seed)
         self.t0 = time.time()
-        self.work = os.path.join(VERIF, ".work", pid)
+        # one scratch directory per invocation (quick and thorough runs of one property may overlap);
+        # directories left behind by dead processes are removed first
+        base = os.path.join(VERIF, ".work")
+        os.makedirs(base, exist_ok=True)
+        for d in os.listdir(base):
+            if d.startswith(pid + "-run-"):
+                owner = d.rsplit("-", 1)[-1]
+                if not (owner.isdigit() and os.path.exists("/proc/" + owner)):
+                    shutil.rmtree(os.path.join(base, d), ignore_errors=True)
+        self.work = os.path.join(base, "%s-run-%s-%d" % (pid, tier, os.getpid()))
         shutil.rmtree(self.work, ignore_errors=True)
         os.makedirs(self.work, exist_ok=True)
         self.states = 0
@@ -65,6 +74,21 @@ class Ctx:
             raise _tlc.TLCFailure("model %s/%s violates %s\n%s" % (module, cfg, r.violated,
                                                                     "\n".join(a + "\n" + s for a, s in r.trace[-3:])))
         return r
+
+    def cfg(self, base, *pairs):
+        """A variant of specs/<base> with textual replacements, written into this run's scratch directory.
+        Returns the absolute path (TLC takes it with -config)."""
+        with open(os.path.join(_tlc.SPECS, base)) as f:
+            txt = f.read()
+        for old, new in pairs:
+            if old not in txt:
+                raise _tlc.TLCFailure("cfg variant of %s: %r not found" % (base, old))
+            txt = txt.replace(old, new)
+        self._ncfg = getattr(self, "_ncfg", 0) + 1
+        path = os.path.join(self.work, "%s.%d.cfg" % (base[:-4], self._ncfg))
+        with open(path, "w") as f:
+            f.write(txt)
+        return path
 
     # ---- bookkeeping ----
     def sample(self, x, cap=6):
